@@ -1125,15 +1125,19 @@ def jo_long(n, J, deltas=(0, -1, 1), probe=False):
 # larger fields (C03): every multiset of n result cards from a reduced card set (one card per countback signature), fed round-robin,
 # closed by a height at which everybody left fails, jump-offs closed by one deciding round (first alive clears / everybody retires)
 
-def reduced_cards(R, limit=None):
-    """one legal single-athlete card over R heights per (countback key, retired?, last cell) signature, simplest first"""
+def reduced_cards(R, limit=None, per=1):
+    """`per` legal single-athlete cards over R heights per (countback key, retired?, last cell) signature: the simplest and, for per=2, also the
+    most complicated one (failures and passes sitting elsewhere on the card)"""
     hs = [FIRST_HEIGHT + r for r in range(R)]
-    seen, out = set(), []
+    groups = {}
     for c in sorted(single_cards(R), key=lambda c: (sum(len(s) for s in c), c)):
         key = (hjmodel.countback_key(list(c), hs), hjmodel.has_retired(list(c)), c[-1][-1:] if c[-1] else '')
-        if key not in seen:
-            seen.add(key)
-            out.append(c)
+        groups.setdefault(key, []).append(c)
+    out = []
+    for key, cs in groups.items():
+        out.append(cs[0])
+        if per > 1 and len(cs) > 1:
+            out.append(cs[-1])
     return out[:limit] if limit else out
 
 
@@ -1185,9 +1189,9 @@ def _placing_work(chunk):
     return dict(stats=d.stats, viol=d.viol[:20], outcomes=d.outcomes)
 
 
-def placing_enumerate(n, R, ncards=None):
+def placing_enumerate(n, R, ncards=None, per=1):
     import itertools
-    cards = reduced_cards(R, ncards)
+    cards = reduced_cards(R, ncards, per)
     combos = list(itertools.combinations_with_replacement(cards, n))
     nchunks = min(len(combos), common.NPROC * 8)
     res = common.pmap(_placing_work, [((n, R), combos[i::nchunks]) for i in range(nchunks)])
